@@ -580,23 +580,23 @@ def main():
     #  minimum depth, alphabet). Every part stops *between* depths when its share of the budget is used up.
     if quick:
         plan = [
-            ("table-A", keysets["A"], roots_main, 4, "fast", True, True, 0.10, 3, 3, "full"),
+            ("table-A", keysets["A"], roots_main, 4, "fast", True, True, 0.14, 3, 3, "full"),
             ("table-A-asan", keysets["A"], roots_main, 3, "asan", True, True, 0.05, 0, 2, "full"),
-            ("layout-A", keysets["A"], roots_main, 12, "fast", True, False, 0.12, 4, 8, "layout"),
+            ("layout-A", keysets["A"], roots_main, 12, "fast", True, False, 0.14, 4, 8, "layout"),
             ("layout-B", keysets["B"], roots_more, 8, "fast", True, False, 0.07, 0, 5, "layout"),
             ("layout-C", keysets["C"], roots_more, 8, "fast", True, False, 0.07, 0, 5, "layout"),
             ("layout-A-asan", keysets["A"], roots_main, 8, "asan", True, True, 0.07, 0, 5, "layout"),
         ]
     else:
         plan = [
-            ("table-A", keysets["A"], roots_main, 5, "fast", True, True, 0.12, 4, 5, "full"),
-            ("table-B", keysets["B"], roots_main, 5, "fast", True, False, 0.07, 3, 4, "full"),
-            ("table-C", keysets["C"], roots_main, 5, "fast", True, False, 0.07, 3, 4, "full"),
-            ("table-A-asan", keysets["A"], roots_main, 4, "asan", True, True, 0.04, 0, 4, "full"),
-            ("layout-A", keysets["A"], roots_main, 40, "fast", True, True, 0.08, 5, 12, "layout"),
-            ("layout-B", keysets["B"], roots_main, 40, "fast", True, True, 0.08, 5, 12, "layout"),
+            ("table-A", keysets["A"], roots_main, 5, "fast", True, True, 0.12, 4, 4, "full"),
+            ("table-B", keysets["B"], roots_main, 4, "fast", True, True, 0.05, 3, 3, "full"),
+            ("table-C", keysets["C"], roots_main, 4, "fast", True, True, 0.05, 3, 3, "full"),
+            ("table-A-asan", keysets["A"], roots_main, 4, "asan", True, True, 0.05, 0, 3, "full"),
+            ("layout-A", keysets["A"], roots_main, 40, "fast", True, True, 0.10, 5, 12, "layout"),
+            ("layout-B", keysets["B"], roots_main, 12, "fast", True, False, 0.10, 5, 9, "layout"),
             ("layout-C", keysets["C"], roots_main, 40, "fast", True, True, 0.08, 5, 12, "layout"),
-            ("layout-A-roots", keysets["A"], roots_more, 13, "fast", True, False, 0.06, 0, 10, "layout"),
+            ("layout-A-roots", keysets["A"], roots_more, 12, "fast", True, False, 0.06, 0, 9, "layout"),
             ("layout-A-asan", keysets["A"], roots_main, 40, "asan", True, True, 0.10, 0, 10, "layout"),
         ]
     bounds = []
